@@ -174,6 +174,16 @@ PROPS["C06"] = {
     "assumptions": ["no interleaving of processes is enumerated; the claim is about arrival-order independence of the main process"],
 }
 
+PROPS["C19"] = {
+    "level": "other",
+    "text": "Scope-restricted.  Proved on OutputFiles.open_record_writer: the `fileformat` handed to the record writer is determined by "
+            "the file name before any compression suffix (else left to the input format via `qualities`), and the same keyword "
+            "arguments reach the direct writer (one core) and the proxied writer (several cores).  Bounded: compression / interleaved "
+            "/ core-count independence on a command-line grid.",
+    "note": "NOT decided here: that the codecs round-trip bytes and that dnaio parses FASTA/FASTQ equivalently (third-party code).",
+    "assumptions": ["codec equivalence of xopen/isal/zlib/bz2/xz/zstd is assumed"],
+}
+
 _PENDING = "check not built yet in this revision (see DESIGN.md section 7 for the build order)"
 NOT_APPLICABLE = {
     "C12": "quantifies over fault sequences, crash points and schedules and contains a liveness clause; malformed-input detection "
